@@ -84,6 +84,11 @@ def cert_blob(kind, host_pub_fields, ca_blob, key_id=b'host', principals=b'', cr
             + sstr(ca_blob) + sstr(b'signature'))
 
 
+class HarnessHang(BaseException):
+    """raised out of a fake socket when one run has made an absurd number of recv calls: the code under test is spinning (a BaseException, so that
+    neither `except Exception` nor `except (Exception, SystemExit)` in the tool swallows it)"""
+
+
 class Server:
     """Scripted SSH-2 server.
     hostkeys: {host-key type requested by the tool: blob | ('raw', bytes) | None (close) | callable(conn)}
@@ -320,6 +325,8 @@ class FakeSock:
         if gate is not None:
             gate(('recv', self.conn.addr))
         self.net.recv_calls += 1
+        if self.net.recv_calls > self.net.max_recv_calls:
+            raise HarnessHang('more than %d recv calls in one run' % self.net.max_recv_calls)
         if self.conn.out:
             d = self.conn.out.pop(0)
             if len(d) > n:
@@ -359,6 +366,7 @@ class FakeNet:
         self.resolver = resolver
         self.open_socks = []
         self.recv_calls = 0
+        self.max_recv_calls = 400000
         self.timeouts = 0
         self.gate = None
         self.cur_open = 0
@@ -475,6 +483,9 @@ def run_main(argv, net, fresh=True, fake_time=True):
                     print(traceback.format_exc())
             except SystemExit as e:
                 code = e.code
+            except HarnessHang as e:
+                code = 'HANG'
+                print('\nHARNESS: run aborted, the code under test does not terminate (%s)' % e)
     finally:
         sys.stdout, sys.argv = old
     return code, buf.getvalue()
